@@ -360,11 +360,19 @@ def report(ctx, prop, kind, all_divs, summaries):
             if sig not in minimal or len(m["line"].get("pre", [])) < len(minimal[sig]["line"].get("pre", [])):
                 minimal[sig] = m
     seen = {}
-    for d in all_divs:
+    trouble = [d for d in all_divs if d["signature"] == "harness" or d["signature"].startswith("pre:")]
+    real = [d for d in all_divs if d not in trouble]
+    if trouble and not real:
+        # the driver itself is in trouble (hand-off timeout, unparsable line, unobtainable map order) and nothing was observed
+        d = trouble[0]
+        raise vlib.MachineryError("%s driver: %s\n%s" % (kind, d["what"], json.dumps(d.get("line"))[:1500]))
+    if trouble:
+        # divergences observed on the real objects stand as recorded; the trouble (typically hand-offs that never happen
+        # once the objects have left the specification) is noted
+        ctx.notes.append("%s driver trouble next to %d divergences: %s" % (kind, len(real), trouble[0]["what"][:300]))
+        ctx.cov["driver_trouble_lines"] = len(trouble)
+    for d in real:
         sig = d["signature"]
-        if sig == "harness" or sig.startswith("pre:"):
-            # the driver itself is in trouble (hand-off timeout, unparsable line, unobtainable map order)
-            raise vlib.MachineryError("%s driver: %s\n%s" % (kind, d["what"], json.dumps(d.get("line"))[:1500]))
         what, line = d["what"], d.get("line") or {}
         if sig in minimal:
             what, line = minimal[sig]["what"], minimal[sig]["line"]
